@@ -30,6 +30,7 @@ import (
 	"sort"
 	"strings"
 	"sync"
+	"sync/atomic"
 	"time"
 
 	"github.com/emersion/go-vcard"
@@ -312,6 +313,8 @@ func textVariant(o *objT) *carddav.AddressObject {
 	return &tv
 }
 
+var nTextVariants int64 // Match cases also run on the card re-decoded from go-vcard's text form
+
 func exec(in string) string {
 	x := hx.MustParse(in)[0]
 	a := x.Args()
@@ -326,6 +329,7 @@ func exec(in string) string {
 		}
 		if o != nil {
 			if tv := textVariant(o); tv != nil {
+				atomic.AddInt64(&nTextVariants, 1)
 				if o2 := callMatch(buildQuery(q), tv); o2 != obs {
 					obs = hx.L("split", obs, o2)
 				}
@@ -431,6 +435,30 @@ func genSingleFilter(emit func(string), thorough bool) {
 	}
 }
 
+// exhaustive A': letter case.  Every match type x negate x text over {a,A,aB,Ab,ab} against
+// one value over the same set: comparison is bytewise, "a" is not "A".
+func genLetterCase(emit func(string)) {
+	strs := []string{"a", "A", "aB", "Ab", "ab", "AB"}
+	for _, tm := range tmAlphabet(strs) {
+		for _, v := range strs {
+			q := &qT{allprop: true, pfs: []pfT{{name: "FN", tms: []tmT{tm}}}}
+			emit(matchCase(q, &objT{path: "/c", etag: "e", mtime: 1, length: 1,
+				card: []bindingT{version(), {key: "FN", fields: []fieldT{fld(v)}}}}))
+		}
+	}
+	// property names are exact keys too
+	for _, name := range []string{"FN", "fn", "Fn"} {
+		for _, key := range []string{"FN", "fn"} {
+			for _, nd := range []bool{false, true} {
+				q := &qT{allprop: false, props: []string{name}, pfs: []pfT{{name: name, notdef: nd}}}
+				o := objT{path: "/c", etag: "e", mtime: 1, length: 1, card: []bindingT{version(), {key: key, fields: []fieldT{fld("a")}}}}
+				emit(matchCase(q, &o))
+				emit(filterCase(q, []objT{o}))
+			}
+		}
+	}
+}
+
 // exhaustive B: outer test x two prop-filters over two properties x cards
 func genTwoFilters(emit func(string), thorough bool) {
 	inner := []string{"", "bogus"}
@@ -483,8 +511,8 @@ func genFilterExhaustive(emit func(string), thorough bool) {
 	}
 	kinds := [][]bindingT{
 		{version(), {key: "FN", fields: []fieldT{fld("a")}}, {key: "EMAIL", fields: []fieldT{fld("m@x"), fld("n@y")}}}, // matches
-		{version(), {key: "FN", fields: []fieldT{fld("b")}}},                                                          // does not match
-		{version(), {key: "FN", fields: []fieldT{fld("b")}}, {key: "X", fields: []fieldT{fld("1")}}},                    // reaches the unknown match type
+		{version(), {key: "FN", fields: []fieldT{fld("b")}}},                                                           // does not match
+		{version(), {key: "FN", fields: []fieldT{fld("b")}}, {key: "X", fields: []fieldT{fld("1")}}},                   // reaches the unknown match type
 		nil, // empty card
 		{{key: "FN", fields: []fieldT{fld("b"), fld("a")}}}, // matches on its second FN, has no VERSION
 	}
@@ -604,6 +632,13 @@ func randText(r *hx.Rand, o *objT, name string) string {
 	v := r.Pick(vs)
 	if v == "" {
 		return v
+	}
+	if r.Chance(1, 8) { // same letters, other case: must not match bytewise
+		if r.Bool() {
+			v = strings.ToUpper(v)
+		} else {
+			v = strings.ToLower(v)
+		}
 	}
 	switch r.Intn(4) {
 	case 0:
@@ -745,18 +780,34 @@ func main() {
 	emit(matchCase(&qT{test: "bogus", pfs: []pfT{{name: "FN"}}}, nil))
 	emit(matchCase(&qT{test: "allof"}, nil))
 	emit(matchCase(&qT{test: "", pfs: []pfT{{name: "FN"}}}, nil))
+	// the witness of the repaired defect (only the first EMAIL was tested), and its relatives
+	two := &objT{path: "/w", etag: "e", mtime: 1, length: 1, card: []bindingT{version(),
+		{key: "EMAIL", fields: []fieldT{fld("a@x"), fld("b@y")}}}}
+	for _, ty := range types6 {
+		for _, neg := range []bool{false, true} {
+			for _, inner := range tests4 {
+				q := &qT{allprop: true, pfs: []pfT{{name: "EMAIL", test: inner, tms: []tmT{{text: "b@y", neg: neg, typ: ty}, {text: "a@x", neg: neg, typ: ty}}}}}
+				emit(matchCase(q, two))
+				q1 := *q
+				q1.pfs = []pfT{{name: "EMAIL", test: inner, tms: q.pfs[0].tms[:1]}}
+				emit(matchCase(&q1, two))
+				emit(filterCase(&q1, []objT{*two}))
+			}
+		}
+	}
 	emit(filterCase(nil, nil))
 	emit(filterCase(nil, []objT{{path: "/p", etag: "e", nilCard: true}, {path: "/q", etag: "f", card: []bindingT{version()}}}))
 
 	genSingleFilter(emit, thorough)
+	genLetterCase(emit)
 	genTwoFilters(emit, thorough)
 	genFilterExhaustive(emit, thorough)
 
 	rng := hx.NewRand(hx.Seed())
-	genRandom(emit, rng.Fork(1), nMatch, nFilter, false)     // structured, mostly valid
+	genRandom(emit, rng.Fork(1), nMatch, nFilter, false)    // structured, mostly valid
 	genRandom(emit, rng.Fork(2), nMatch/4, nFilter/4, true) // malformed stream
 
 	close(inputs)
 	wg.Wait()
-	fmt.Fprintf(os.Stderr, "c07: %d cases\n", sink.N)
+	fmt.Fprintf(os.Stderr, "c07: %d cases, %d of the Match cases also on the card re-decoded from text\n", sink.N, atomic.LoadInt64(&nTextVariants))
 }
